@@ -112,11 +112,14 @@ pub struct NetPlan {
     #[serde(default, skip_serializing_if = "Option::is_none")]
     pub coalesce: Option<Coalesce>,
     pub fragment_size: usize,
+    /// keep the bytes of every datagram (C06 mutates captured traffic)
+    #[serde(default, skip_serializing_if = "std::ops::Not::not")]
+    pub capture: bool,
 }
 
 impl NetPlan {
     pub fn clean(seed: u64, fragment_size: usize) -> Self {
-        NetPlan { seed, latency_us: 100, jitter_us: 0, rules: vec![], partitions: vec![], scripted: vec![], frozen: None, heal_ms: None, shared_medium: false, coalesce: None, fragment_size }
+        NetPlan { seed, latency_us: 100, jitter_us: 0, rules: vec![], partitions: vec![], scripted: vec![], frozen: None, heal_ms: None, shared_medium: false, coalesce: None, fragment_size, capture: false }
     }
 }
 
@@ -149,6 +152,7 @@ pub struct WireRec {
     pub len: usize,
     pub dup: bool,
     pub delivered_step: Option<u64>,
+    pub bytes: Option<Rc<Vec<u8>>>,
 }
 
 struct Arrival {
@@ -405,7 +409,7 @@ impl Net {
         if fate != Fate::default() {
             self.fired.insert(ordinal, fate.clone());
         }
-        let rec_base = WireRec { ordinal, t_send: now, t_arr: None, src: Some(src), dst, port, class, parsed, len: buf.len(), dup: false, delivered_step: None };
+        let rec_base = WireRec { ordinal, t_send: now, t_arr: None, src: Some(src), dst, port, class, parsed, len: buf.len(), dup: false, delivered_step: None, bytes: if self.plan.capture { Some(Rc::new(buf.to_vec())) } else { None } };
         if self.nodes[dst].crashed {
             self.bump("crash_drop");
             self.wire.push(rec_base);
@@ -459,7 +463,7 @@ pub fn inject(dst: usize, port: Port, bytes: Vec<u8>, delay_ns: u64) {
         net.bump("inject");
         let ordinal = net.next_ordinal;
         net.next_ordinal += 1;
-        net.wire.push(WireRec { ordinal, t_send: now, t_arr: Some(now + delay_ns), src: None, dst, port, class, parsed, len: bytes.len(), dup: false, delivered_step: None });
+        net.wire.push(WireRec { ordinal, t_send: now, t_arr: Some(now + delay_ns), src: None, dst, port, class, parsed, len: bytes.len(), dup: false, delivered_step: None, bytes: None });
         let id = net.next_arrival;
         net.next_arrival += 1;
         let rec = net.wire.len() - 1;
